@@ -41,7 +41,7 @@ var delims = []byte{',', ',', ',', ';', '\t', '|', ' ', 'x', '0', 0x00, 0xff}
 var strPieces = []string{"a", "b", "abc", "x", " ", "  ", "\"", "\"\"", "\n", "é", "\xff", "\xc3", "0", "t", "-", ".", "'", "$", "Z", "漢"}
 var intCells = []string{"0", "1", "-1", "12", "+7", "007", "123456789", "-0", "9223372036854775807"}
 var floatCells = []string{"1.5", "-2.25", "1e3", "NaN", "inf", "-Inf", "0.1", ".5", "5.", "1E-7", "-0.0", "0x1p-2", "9300000000000000000", "18446744073709551615", "123456789012345678901234567890", "0.30000000000000004"}
-var boolCells = []string{"true", "false", "t", "f", "T", "F", "TRUE", "False"}
+var boolCells = []string{"true", "false", "t", "f", "T", "F", "TRUE", "False", "1", "0", "1", "0"}
 
 func drawCell(t *rapid.T, flavour int, delim byte, long bool) string {
 	k := rapid.IntRange(0, 9).Draw(t, "cellkind")
@@ -111,6 +111,7 @@ type CSVBounds struct {
 	MaxCols, MaxRows int
 	Long             bool
 	BigRows          bool // allow the >=1000 row RowCountHint path
+	BigRare          bool // ... but rarely (quick tier)
 }
 
 // DrawCSV draws a well-formed document inside the space whose meaning is
@@ -121,8 +122,18 @@ func DrawCSV(t *rapid.T, b CSVBounds) *CSVCase {
 	ncols := rapid.IntRange(1, b.MaxCols).Draw(t, "ncols")
 	nrows := rapid.IntRange(0, b.MaxRows).Draw(t, "nrows")
 	big := false
-	if b.BigRows && rapid.IntRange(0, 40).Draw(t, "big") == 0 {
-		nrows = rapid.IntRange(1000, 1100).Draw(t, "bigrows")
+	bigOdds := uint64(60)
+	if b.BigRare {
+		bigOdds = 1500
+	}
+	growAfter, growBy := 0, 0
+	if b.BigRows && Rare(t, "big", bigOdds) {
+		// the RowCountHint path: >= 1000 rows; sometimes far more rows than the
+		// hint promises and cells that get longer after the first 1000 rows, so
+		// that the pre-sized column buffers are outgrown
+		nrows = []int{1000, 1001, 1100, 2600, 3500}[rapid.IntRange(0, 4).Draw(t, "bigrows")]
+		growAfter = []int{0, 1000, 1200}[rapid.IntRange(0, 2).Draw(t, "growafter")]
+		growBy = rapid.IntRange(0, 12).Draw(t, "growby")
 		big = true
 	}
 	c.CRLF = rapid.Bool().Draw(t, "crlf")
@@ -177,6 +188,9 @@ func DrawCSV(t *rapid.T, b CSVBounds) *CSVCase {
 				row[i] = strconv.Itoa(r*7 + i)
 				if flav[i] >= 3 {
 					row[i] = "v" + row[i]
+					if growAfter > 0 && r >= growAfter {
+						row[i] += strings.Repeat("w", growBy*(1+i%2))
+					}
 				}
 			} else {
 				row[i] = drawCell(t, flav[i], c.Delim, b.Long)
